@@ -38,11 +38,12 @@ SIG = {
     'pdelta_input': 'C14:pdelta_stale_input_event',
     'pchain_return': 'C14:pchain_returns_transformed_event',
     'ppar_rest': 'C14:ppar_rest_stretched_twice',
+    'pdur_pad': 'C14:pdur_pad_stretched_twice',
 }
 HEADER = ('From Coq Require Import ZArith QArith List Bool String. Import ListNotations.\n'
           'Require Import SC3.lib.PyNum SC3.model.TaskQ SC3.model.Event.\nOpen Scope string_scope. Open Scope list_scope.\n')
 BODY = 'Eval vm_compute in bad_idx (fun b : bool => b) cases.'
-FUEL, DEPTH = 80, 8
+FUEL, DEPTH = 400, 10
 
 
 # --------------------------------------------------------------------------- printers
@@ -94,6 +95,7 @@ def ppat(t):
     if k == 'par': return '(PPar [%s])' % '; '.join(ppat(x) for x in t[1])
     if k == 'delta': return '(PDelta %s %s)' % (pval(t[1]), ppat(t[2]))
     if k == 'dur': return '(PDur %s %s)' % (pnum(t[1]), ppat(t[2]))
+    if k == 'durq': return '(PDurQ %s %s %s %s)' % (pnum(t[1]), pnum(t[2]), 'None' if t[3] is None else '(Some %s)' % pnum(t[3]), ppat(t[4]))
     if k == 'seq': return '(PSeq [%s] %d%%nat %s)' % ('; '.join(ppat(x) for x in t[1]), t[2], cz(t[3]))
     if k == 'pn': return '(PN %s %d%%nat)' % (ppat(t[1]), t[2])
     raise ValueError(t)
@@ -379,6 +381,9 @@ def gen_pat(rng, depth, st):
             # streams ends first, a Ppar
             x = rng.random()
             if x < 0.25:
+                if rng.random() < 0.4:
+                    return ['durq', rng.choice([F(8), F('3/2'), I(2)]), F(Fraction(0.001)),
+                            rng.choice([F(1), I(1), F(2), F('1/2'), F('3/2')]), ['bind', gen_kvs(rng, rests=False)]]
                 return ['dur', rng.choice([F('3/2'), F(1), I(2), F('5/4')]), ['bind', gen_kvs(rng, infinite=rng.random() < 0.5)]]
             if x < 0.5:
                 return ['chain', [['bind', gen_kvs(rng, rests=False)], ['bind', gen_kvs(rng)]]]
@@ -403,13 +408,27 @@ def gen_pat(rng, depth, st):
             inner = [['stretch', ['rep', rng.choice([F(2), F('1/2'), I(2), F('3/2')])]],
                      ['pan', ['seq', [numval(rng, -1, 1) for _ in range(n)]]]]
             return ['chain', [['par', voices], ['bind', inner]]]
+        if rng.random() < 0.1:
+            return ['chain', [['bind', b]]]            # Pchain of a single pattern
         first = ['bind', a]
         if rng.random() < 0.3:      # the outer pattern delays itself: its input events are the inner pattern's outputs
             first = ['delta', rng.choice([F('1/2'), F(1), I(1), F(0)]), first]
         return ['chain', [first, ['bind', b]] + ([['bind', gen_kvs(rng, rests=False)]] if rng.random() < 0.2 else [])]
     if r < 0.82:
-        return ['delta', rng.choice([F('1/2'), F(1), I(1), F(0), I(0), F('1/4')]), gen_pat(rng, depth - 1, st)]
+        return ['delta', rng.choice([F('1/2'), F(1), I(1), F(0), I(0), F('1/4'), R('1/2'), R(1)]), gen_pat(rng, depth - 1, st)]
     d = rng.choice([F('3/2'), F(1), I(2), F('5/4'), F(3), I(1), F('1/2'), F(0), I(0)])
+    if rng.random() < 0.4:
+        # every constructor argument at non-default values: Pdur(dur, pattern, tolerance, quant); the quant branch is taken
+        # by children that END before dur (finite Pbind, long dur)
+        tol = rng.choice([F(Fraction(0.001)), F(0), I(0), F('1/4'), F('1/8'), F('1/2'), I(1)])
+        quant = rng.choice([None, F(1), I(1), F(2), I(2), F('1/2'), F('1/4'), F('3/2'), F('3/4')])
+        dd = rng.choice([d, F(8), I(16), F('9/2')])
+        if rng.random() < 0.6:
+            child = ['bind', gen_kvs(rng, rests=rng.random() < 0.3)]
+        else:
+            st3 = dict(st, under_dur=True, mono_banned=True)
+            child = gen_pat(rng, depth - 1, st3)
+        return ['durq', dd, tol, quant, child]
     if rng.random() < 0.25:
         return ['dur', d, ['bind', gen_kvs(rng, infinite=True)]]
     # a Pmono cut by a Pdur nested in a Ppar is released only when the whole player ends (not modelled)
@@ -429,6 +448,7 @@ def force_legato(t):
     elif t[0] in ('chain', 'par', 'seq'):
         for c in t[1]: force_legato(c)
     elif t[0] == 'pn': force_legato(t[1])
+    elif t[0] == 'durq': force_legato(t[4])
     else: force_legato(t[2])
 
 
@@ -604,6 +624,13 @@ def battery():
                               proto={'legato': F('1/2'), 'stretch': I(2)})),
         (SIG['ppar_rest'], pc(['chain', [['par', [bind(dur=[I(1), I(1)], pan=I(0)), bind(dur=[F('1/2')], pan=I(1))]],
                                          ['bind', [['stretch', ['rep', F(2)]]]]]])),
+        (SIG['pdur_pad'], pc(['seq', [['durq', F(8), F(Fraction(0.001)), F(1), bind(dur=[F('1/4')], pan=I(0))],
+                                       bind(dur=[F(1)], pan=I(1))], 1, 0], proto={'legato': F('1/2'), 'stretch': I(2)})),
+        # probes without a known finding: the quant grid of Pdur (child ends 1/4 past a grid point) seen by what follows it
+        ('C14:probe_pdur_quant_grid', pc(['seq', [['durq', F(8), F(Fraction(0.001)), F(1),
+                                                  bind(dur=[F('3/4'), F('3/4'), F('3/4')], pan=I(0))],
+                                                 bind(dur=[F(1)], pan=I(1))], 1, 0])),
+        ('C14:probe_pdur_quant_grid', pc(['pn', ['durq', F(8), F('1/4'), I(2), bind(dur=[F('3/4'), F('3/2')], pan=I(0))], 2])),
         (SIG['scale_key'], kc({'degree': I(2)}, minor)),
         (SIG['scale_tuning'], {'kind': 'scale', 'scale': wide}),
         (SIG['scale_tuning'], kc({'degree': I(4)}, wide)),
@@ -671,6 +698,9 @@ def count_tree(c, t):
         for x in t[1]: count_tree(c, x)
     elif t[0] == 'pn':
         count_tree(c, t[1])
+    elif t[0] == 'durq':
+        c.count('Pdur:tolerance=%s' % t[2][1]); c.count('Pdur:quant=%s' % (None if t[3] is None else t[3][1]))
+        count_tree(c, t[4])
     elif t[0] in ('delta', 'dur'):
         count_tree(c, t[2])
 
@@ -857,7 +887,7 @@ def oracle_pat(case, res):
     if case.get('ctl') or case.get('raises') or case.get('twice') is not None:
         return []      # the reference knows neither controllers nor failing events
     txt = json.dumps(case['pat'])
-    if '["chain", [["par"' in txt or ('"dur"' in txt and '2047/2048' in txt):
+    if '["chain", [["par"' in txt or (('"dur"' in txt or '"durq"' in txt) and '2047/2048' in txt):
         return []      # the reference neither feeds a Ppar one input event per pull nor knows Pdur's tolerance window
     if '"par"' in txt and '"mono"' in txt:
         return []      # the reference does not place the release of a Pmono inside a Ppar
@@ -973,7 +1003,8 @@ def search(ctx, failures):
     return found
 
 
-THEOREM_OF = {SIG['ppar_rest']: 'ppar_preserves_child_timelines',
+THEOREM_OF = {SIG['pdur_pad']: 'pdurq_pad',
+              SIG['ppar_rest']: 'ppar_preserves_child_timelines',
               SIG['pchain_return']: 'a pattern that ends hands the event it was sent, unchanged, to the pattern embedded next',
               SIG['pdelta_input']: 'streams share no state with their inputs (Pchain feeds every pattern its current input)',
               SIG['rest']: 'player_times', SIG['pdur_dict']: 'pdur_total_duration', SIG['pdur_int']: 'pdur_total_duration',
